@@ -1370,4 +1370,32 @@ func c01Teardown(c *Check) {
 		msg = "undecided: no QUIT in Close"
 	}
 	c.Hold("R6", "C.Close:quit-error-not-returned", r.FI.Decl.Pos(), msg == "", msg)
+	// … and neither does the outcome of closing the socket on the path on which QUIT failed: the peer has dropped or
+	// reset the connection, and over TLS closing such a connection fails as well (the close_notify alert cannot be
+	// written: "tls: failed to send closeNotify alert (but connection was closed anyway)"). The message was accepted
+	// with 250 before QUIT was sent; an error from Close makes target.smtp's Commit fail and the queue send it again.
+	isQuit := func(info *types.Info, call *ast.CallExpr) bool { return methodName(call) == "Quit" }
+	for i, pt := range r.Calls(isQuit) {
+		call := r.CallAt(pt, isQuit)
+		nonNilReturn := func(q Pt) bool {
+			if q.I != len(q.B.Nodes) {
+				return false
+			}
+			k, ret := r.F.Exit(q)
+			if k != ExitReturn || ret == nil || len(ret.Results) == 0 {
+				return false
+			}
+			return !isNilIdent(info, ret.Results[len(ret.Results)-1])
+		}
+		found, wit, ok := r.OnErr(pt, call, false, nonNilReturn, nil)
+		key := "C.Close:nil-after-failed-quit"
+		if i > 0 {
+			key += itoa(i + 1)
+		}
+		if !ok {
+			c.Hold("R6", key, r.Pos(pt), false, "the error of QUIT is not kept in a variable")
+			continue
+		}
+		c.Hold("R6", key, r.Pos(pt), !found, "after QUIT failed Close can return an error ("+wit+"): over TLS closing a connection the peer has reset fails too (close_notify cannot be sent) – the smtp target returns that from Commit although the next hop answered 250 to the message, the queue delivers it again on every attempt and finally reports a failure for delivered mail")
+	}
 }
